@@ -92,8 +92,17 @@ def gen_instance(rng, allow_ext=True):
         inst = gen.gen_conelp(rng, kind, dims=dims, qp=kind in ('coneqp', 'qp'), ml_ge_n=kind in ('lp', 'qp'), p=p)
         if solver is None:
             gen.add_startpoints(rng, inst)
-            if kind in ('conelp', 'lp', 'socp', 'sdp') and rng.random() < 0.12:
+            r_ = rng.random()
+            if kind in ('conelp', 'lp', 'socp', 'sdp') and r_ < 0.12:
                 inst = gen.make_infeasible(inst)
+            elif kind in ('conelp', 'lp', 'socp', 'sdp') and r_ < 0.24:
+                inst = gen.make_unbounded(inst, rng)
+            elif kind in ('conelp', 'sdp') and inst['dims']['s'] and rng.random() < 0.6:
+                # junk in the unreferenced strictly upper triangles of the start points' 's' blocks
+                for sp_, key in (('primalstart', 's'), ('dualstart', 'z')):
+                    if sp_ in inst:
+                        inst[sp_] = dict(inst[sp_])
+                        inst[sp_][key] = gen.junk_upper_triangles(rng, inst, inst[sp_][key])
     inst.pop('planted', None)
     if kind in ('cpl', 'cp') and allow_ext and rng.random() < 0.2:
         inner = gen_instance(rng, allow_ext=False)
@@ -604,6 +613,13 @@ def run_case(case, refs=None):
                     if eff.get('show_progress', True) is False and o['stdout']:
                         violation = V('show_progress', entry, '%s: printed %d chars although show_progress is False' % (where, len(o['stdout'])))
                         break
+                    ft_ = eff.get('feastol', 1e-7)
+                    if r.get('status') == 'dual infeasible' and r.get('dinfres') is not None and not (r['dinfres'] <= ft_):
+                        violation = V('tolerances', entry, "%s: 'dual infeasible' with certificate residual %r > feastol %r" % (where, r['dinfres'], ft_), what='dual-certificate')
+                        break
+                    if r.get('status') == 'primal infeasible' and r.get('pinfres') is not None and not (r['pinfres'] <= ft_):
+                        violation = V('tolerances', entry, "%s: 'primal infeasible' with certificate residual %r > feastol %r" % (where, r['pinfres'], ft_), what='primal-certificate')
+                        break
                     if r.get('status') == 'optimal' and inst['kind'] != 'op' and r.get('iterations') != 0:
                         ft, at, rt = eff.get('feastol', 1e-7), eff.get('abstol', 1e-7), eff.get('reltol', 1e-6)
                         pi, di, gp_, rg = r.get('pres'), r.get('dres'), r.get('gap'), r.get('relgap')
@@ -679,7 +695,9 @@ def summarise_result(res):
     if not isinstance(res, dict):
         return {}
     return {'status': res.get('status'), 'iterations': res.get('iterations'), 'pres': res.get('primal infeasibility'),
-            'dres': res.get('dual infeasibility'), 'gap': res.get('gap'), 'relgap': res.get('relative gap')}
+            'dres': res.get('dual infeasibility'), 'gap': res.get('gap'), 'relgap': res.get('relative gap'),
+            'pinfres': res.get('residual as primal infeasibility certificate'),
+            'dinfres': res.get('residual as dual infeasibility certificate')}
 
 
 # ----------------------------------------------------------------------------- engine interface
